@@ -149,8 +149,10 @@ def run(facts, chk, tier, only=None):
                        for n, ty in zip(caps, c.upvar_tys)]
                 env = Agg('closure:' + c.path, 0, upv)
                 envv = RefV(Cell(env, 'env')) if c.local_ty(1).startswith('&') else env
-                arg = Agg('tuple', 0, [BV(64, 0), RefV(Cell(Opaque('sample'), 's'))])
+                arg = Agg('tuple', 0, [BV(64, 0), RefV(Cell(Opaque('sample'), 's'))]) if c.local_ty(2).startswith('(') else BV(64, 0)   # (index, name) or the index alone
                 r = I.exec_body(c, [envv, arg])
+                while isinstance(r, RefV):        # a &'static str instead of a String
+                    r = I.load(r)
                 table[(in_ref, in_alt)] = (r.tag[1] if isinstance(r, Opaque) and r.tag[0] == 'str' else (''.join(r.chars) if type(r).__name__ == 'StrV' else repr(r)))
         want = {(1, 1): '0/1', (1, 0): '0', (0, 1): '1', (0, 0): '.'}
         return table, want, caps
